@@ -36,7 +36,7 @@ func main() {
 	out := flag.String("out", "", "output directory")
 	maporder := flag.Bool("maporder", false, "also rewrite map ranges")
 	base := flag.String("base", "", "existing overlay.json (e.g. a mutant) to load on top of the tree and to merge into the result")
-	rtsrc := flag.String("rt", "/verif/engine/verifrt_src/verifrt.go.txt", "verifrt source")
+	rtsrc := flag.String("rt", "engine/verifrt_src/verifrt.go.txt", "verifrt source")
 	flag.Parse()
 	if *out == "" {
 		fatal("need -out")
